@@ -6,6 +6,7 @@ import MontePyVerif.Model.Links
     number the universe has in the original file.
     Answer: link status, outcome of every assignment, final numbers per object, numbers written at every site. -/
 open Lean MontePyVerif.Collection MontePyVerif.Links
+open MontePyVerif.Spec.Refs (WCell WSurf WMat WFile)
 
 def oI : Option Int → Json | none => Json.null | some n => toJson n
 
